@@ -43,8 +43,8 @@ def main():
         "version": 1,
         "setup_cmd": "./setup.sh",
         "hooks": {
-            "guard": "cargo feature `verif` (rlib_dsu, rlib_f80), default off",
-            "enable": "the harness crates depend on /repo/rlib/dsu and /repo/rlib/f80 with features=[\"verif\"]; nothing else is built with it",
+            "guard": "cargo feature `verif` (rlib_treap, rlib_dsu, rlib_f80), default off",
+            "enable": "the harness crates for C03/C16, C05 and C18 depend on /repo/rlib/treap, /repo/rlib/dsu and /repo/rlib/f80 with features=[\"verif\"]; nothing else is built with it (C17 deliberately is not)",
             "baseline_off_cmd": "cd /repo && cargo test --workspace --no-fail-fast --offline",
             "source_commits": extra.get("hook_commits", []),
             "add_only": True,
